@@ -528,4 +528,24 @@ theorem specRT_sub_obsRT (inp : Input) (H : PlainOk inp) : ∀ e ∈ specRT inp,
     · cases hes
   · cases hes
 
+/-- C05's region WF implies C09's `WF09` (and a compiling output): on those inputs nothing about C09 is left to per-input evaluation -/
+theorem WF09_of_region05 (inp : Input) (h : region05 inp = "WF") : WF09 inp = true ∧ modelCompiles inp = true := by
+  unfold region05 at h
+  split at h
+  · exact absurd h (by decide)
+  rename_i h1
+  split at h
+  · exact absurd h (by decide)
+  split at h
+  · exact absurd h (by decide)
+  rename_i h3
+  simp only [Bool.or_eq_true, Bool.not_eq_true', beq_iff_eq, not_or, Bool.not_eq_false] at h1
+  obtain ⟨⟨⟨hg, hs⟩, hd⟩, hm⟩ := h1
+  simp only [grammarOk, Bool.and_eq_true] at hg
+  obtain ⟨⟨⟨⟨⟨⟨⟨⟨⟨⟨⟨_, _⟩, hsel1⟩, hsel2⟩, _⟩, _⟩, _⟩, _⟩, _⟩, _⟩, _⟩, _⟩ := hg
+  have hs' : inp.srcNew = false := by simpa using hs
+  have hd' : inp.destNew = false := by simpa using hd
+  have hsh : F_skipShadow inp = false := by simpa using h3
+  exact ⟨WF09_of_input inp hs' hd' (by simp [hm]) hsel1 hsel2 hsh, modelCompiles_plain inp hs' hd' hsel1 hsel2 hsh⟩
+
 end ShootVerif.Mapper
